@@ -231,10 +231,28 @@ def handleGraph (inp out : List String) : String :=
     reply same prop tags modelStr implStr
   | _, _ => "ERR parse"
 
+/-- `C17.conc <A> <B> => m1 m2 m3 m4 m5` — the first operand reached through its *concrete* type: `A.relate(B)` plain,
+`PreparedGeometry::from(&A).relate(B)`, `B.relate(A)` plain, `B.relate(&prepared A)`, and `Geometry::from(A).relate(B)`.
+Prepared must equal plain in both positions, and the concrete type must answer like the enum; valid operands or not. -/
+def handleConc (inp out : List String) : String :=
+  let pin : P (Geom × Geom) := do let a ← geometry; let b ← geometry; pure (a, b)
+  let pout : P (List (Option IM)) := many imP
+  match P.run pin inp, P.run pout out with
+  | some (a, _), some [m1, m2, m3, m4, m5] =>
+    let prop :=
+      if m1.isNone || m2.isNone || m3.isNone || m4.isNone || m5.isNone then "FAIL:panic"
+      else if m1 != m2 then "FAIL:prepared-concrete-differs-from-plain"
+      else if m3 != m4 then "FAIL:prepared-concrete-differs-from-plain-as-second-operand"
+      else if m1 != m5 then "FAIL:concrete-type-differs-from-enum"
+      else "PASS"
+    reply true prop ("concrete A=" ++ ((a.str.splitOn " ").head!) ++ (if inDomain a then "" else " out-of-domain"))
+  | _, _ => "ERR parse"
+
 def handle (op : String) (inp out : List String) : Option String :=
   match op with
   | "C17.hist" => some (handleHist inp out)
   | "C17.graph" => some (handleGraph inp out)
+  | "C17.conc" => some (handleConc inp out)
   | _ => none
 
 end Geo.Ops.C17
